@@ -17,7 +17,7 @@ PROPS = {
                      mc("MCBodyWriter", "MCBodyWriter_chunked_defect3.cfg", expect_violation="Refines")],
         "mc_thorough": [mc("MCBodyWriter", "MCBodyWriter_chunked_impl.cfg"), mc("MCBodyWriter", "MCBodyWriter_chunked_abs_thorough.cfg", workers=8),
                         mc("MCChunkPlan", "MCChunkPlan_small.cfg"), mc("MCChunkPlan", "MCChunkPlan_real_quick.cfg", workers=8)],
-        "require_classes": ["w:term", "w:finish-no-room", "w:err", "w:partial", "dw:err", "w:queries-after-end"],
+        "require_classes": ["w:term", "w:finish-no-room", "w:err", "w:partial", "dw:err", "w:queries-after-end", "w:advance-anywhere", "adv:advanced", "adv:refused"],
         "rule": "one case = a fresh chunked writer (Flow<SendBody> or Call<WithBody>) + a schedule of (input length, buffer length) writes; "
                 "distinct = distinct (generator family, api, lengths / log2-shape of the schedule)",
         "assumptions": BW_ASSUME,
@@ -28,7 +28,7 @@ PROPS = {
                      mc("SizedInd", "", tool="apalache", inv="IndInv")],
         "mc_thorough": [mc("MCBodyWriter", "MCBodyWriter_sized_impl.cfg"), mc("MCBodyWriter", "MCBodyWriter_sized_abs_thorough.cfg", workers=8),
                         mc("SizedInd", "", tool="apalache", inv="IndInv")],
-        "require_classes": ["w:err", "dw:ok", "dw:err", "w:sized-empty", "w:overshoot"],
+        "require_classes": ["w:err", "dw:ok", "dw:err", "w:sized-empty", "w:overshoot", "w:small-n-on-every-request-shape", "adv:advanced", "adv:refused", "w:advance-attempt-mid-body"],
         "rule": "one case = a fresh Content-Length writer with N and a seeded schedule of write / direct-write / empty / overshooting calls; "
                 "distinct = distinct (api, N, schedule style)",
         "assumptions": BW_ASSUME,
@@ -50,7 +50,7 @@ PROPS = {
                      mc("MCSendLoop", "MCSendLoop_defect.cfg", workers=2, expect_violation="Terminates")],
         "mc_thorough": [mc("MCChunkPlan", "MCChunkPlan_small.cfg"), mc("MCChunkPlan", "MCChunkPlan_real_thorough.cfg", workers=16, timeout=3000),
                         mc("MCSendLoop", "MCSendLoop.cfg", workers=2), mc("MCSendLoop", "MCSendLoop_real.cfg", workers=2)],
-        "require_classes": ["w:partial", "w:large-then-small", "w:stalls-then-room"],
+        "require_classes": ["w:partial", "w:large-then-small", "w:stalls-then-room", "w:write-after-direct-write"],
         "rule": "one case = one probe write (input length, buffer length) on a fresh writer, grouped in rows per buffer length, "
                 "or one whole-body send loop with a fixed buffer; distinct = distinct (buffer length, input length) / loop configuration",
         "assumptions": BW_ASSUME,
@@ -64,7 +64,7 @@ PROPS["C07"] = {
     "mc_quick": [mc("MCDechunk", "MCDechunk_q1.cfg", workers=6), mc("MCDechunk", "MCDechunk_q2.cfg", workers=6),
                  mc("MCDechunk", "MCDechunk_live.cfg", workers=2)],
     "mc_thorough": [mc("MCDechunk", "MCDechunk_q1.cfg", workers=6), mc("MCDechunk", "MCDechunk_thorough.cfg", workers=16, timeout=3400, heap="12g"), mc("MCDechunk", "MCDechunk_three.cfg", workers=8), mc("MCDechunk", "MCDechunk_live.cfg", workers=2)],
-    "require_classes": ["r:consume-only", "r:nothing", "r:filled-output", "r:zero-out-framing"],
+    "require_classes": ["r:consume-only", "r:nothing", "r:filled-output", "r:zero-out-framing", "r:chunk-of-64k-or-more"],
     "require_kinds": ["r", "verdict"],
     "rule": "one case = one valid chunked coding (model table, small-scope grammar, hex-digit boundary sizes, random) + one arrival/buffer/stop schedule "
             "(model edge-cover script, exhaustive cut set, single/double cut, 1-byte arrivals, random); distinct = distinct (family, coding index / shape)",
@@ -85,7 +85,7 @@ PROPS["C05"] = {
     "mc_quick": [mc("MCHeadPrefix", "MCHeadPrefix.cfg"), mc("MCHeadPrefix", "MCHeadPrefix_clean.cfg"),
                  mc("MCHeadPrefix", "MCHeadPrefix_kf1.cfg", expect_violation="Refines"),
                  mc("MCHeadPrefix", "MCHeadPrefix_f4.cfg", expect_violation="Refines")],
-    "require_classes": ["offer:3xx-after-location", "offer:shorter-than-version", "offer:h-1", "offer:over-limit", "offer:sequence", "offer:after-split-interim", "offer:giant-head", "offer:directed"],
+    "require_classes": ["offer:3xx-after-location", "offer:shorter-than-version", "offer:h-1", "offer:over-limit", "offer:sequence", "offer:after-split-interim", "offer:giant-head", "offer:directed", "offer:non-ascii-at-display-boundaries"],
     "rule": "one case = one generated well-formed response head (status, version, reason, 0..130 fields with OWS / empty / obs-text values, Location position) "
             "followed by arbitrary bytes, offered at every prefix length 0..|H|+3 to a fresh Flow<RecvResponse> or Call<RecvResponse>; "
             "distinct = distinct (status class, field count, reason class, Location position class)",
@@ -115,7 +115,7 @@ REQ_ASSUME = ["the request is described to the specification through the flow's 
 PROPS["C02"] = {
     "driver": "c02", "trace_spec": "TraceSendHead",
     "mc_quick": [mc("MCSendHead", "MCSendHead.cfg"), mc("MCSendHead", "MCSendHead_f3.cfg", expect_violation="Refines")],
-    "require_classes": ["srw:overflow", "srw:after-complete", "srw:zero", "req:accepted", "c02:credentials-added-on-redirected"],
+    "require_classes": ["srw:overflow", "srw:after-complete", "srw:zero", "req:accepted", "c02:credentials-added-on-redirected", "c02:original-credentials-across-redirect"],
     "rule": "one case = one absolute-URI request (9 methods, HTTP/1.0/1.1, 0..60 original + 0..58 added headers incl. repeated names / obs-text / empty values, "
             "explicit/missing Host, optional CL or TE, despite-method, redirect depth 0..3, Flow and both Call constructors) x 5-8 buffer schedules "
             "(longest line +-1/2, exact line lengths, alternating short/long, random) + 3 calls after completion; distinct = distinct (method, version, api, depth, header-count classes)",
@@ -124,7 +124,7 @@ PROPS["C02"] = {
 PROPS["C16"] = {
     "driver": "c16", "trace_spec": "TraceSendHead",
     "mc_quick": [mc("MCSendHead", "MCSendHead.cfg")],
-    "require_classes": ["c16:added-on-redirected", "c16:despite", "req:accepted", "c16:added-both-framing-headers", "c16:explicit-original-host"],
+    "require_classes": ["c16:added-on-redirected", "c16:despite", "req:accepted", "c16:added-both-framing-headers", "c16:explicit-original-host", "c16:added-host-with-port-or-empty-values", "c16:http10-flow", "c16:added-connection-option", "c16:added-transfer-coding-other-than-chunked"],
     "rule": "one case = a flow at redirect depth 0..3 (both auth policies) whose original request carries cookie/authorization/content-length, with 0..58 caller-added headers "
             "drawn from cookie, authorization, content-length, host, connection, x-*; the head is written through buffer schedules and lexed; distinct = distinct (method, depth, count class, policy)",
     "assumptions": REQ_ASSUME,
@@ -149,7 +149,7 @@ FLOW_ASSUME = ["conventions of the API respected by the model (the C11 driver al
 PROPS["C09"] = {
     "driver": "c09", "trace_spec": "TraceFlow", "scripts": "flow",
     "mc_quick": FLOW_MC_Q + [mc("MCFlow", "MCFlow_EmptyWriteIgnored.cfg", workers=4, expect_violation="Refines")], "mc_thorough": FLOW_MC_T,
-    "require_kinds": ["call"],
+    "require_kinds": ["call"], "require_classes": ["c09:every-early-message", "flow:framing-declared-in-prepare", "flow:direct-write"],
     "rule": "one case = one flow history: a model edge-cover script (every transition of MCFlow, each followed by further calls in the target state) or a seeded random history "
             "over the full menu (9 methods, both versions, Expect, despite-method, request framings, interim 100 / refusals / late 100, every body framing, redirects, premature advance in a random state); "
             "distinct = distinct scripts / (method, version, expect, framing, early message, status class, premature step)",
@@ -158,7 +158,7 @@ PROPS["C09"] = {
 PROPS["C10"] = {
     "driver": "c10", "trace_spec": "TraceFlow",
     "mc_quick": FLOW_MC_Q[:1] + FLOW_MC_Q[3:], "mc_thorough": FLOW_MC_T,
-    "require_classes": ["verdict:redirect", "verdict:cleanup", "c10:refusal", "c10:truncated-3xx-answered"],
+    "require_classes": ["verdict:redirect", "verdict:cleanup", "c10:refusal", "c10:truncated-3xx-answered", "c10:every-status-without-a-condition", "drain:end-of-message-arrives-in-pieces", "flow:framing-declared-in-prepare"],
     "rule": "one case = one combination of request version x request Connection {absent, close, keep-alive, both} x method x Expect outcome {none, 100, timeout, late 100, refused bare / with fields / with Connection: close} "
             "x response version x status {200,204,302,304,403} x framing x response Connection {absent, close, keep-alive, both}, driven to Cleanup with the verdict read in Redirect and Cleanup; "
             "quick = a seeded eleventh, thorough = all; distinct = distinct combinations",
@@ -167,7 +167,7 @@ PROPS["C10"] = {
 PROPS["C11"] = {
     "driver": "c11", "trace_spec": "TraceFlow",
     "mc_quick": FLOW_MC_Q[:2], "mc_thorough": FLOW_MC_T,
-    "require_classes": ["c11:inStatusLine", "c11:afterStatusLine", "c11:bare100", "c11:bareOther", "c11:otherInFields", "c11:otherFieldLine", "c11:otherComplete", "c11:late100", "c11:second-100", "c11:completed", "c11:despite-method", "c11:looked-again-after-refusal"],
+    "require_classes": ["c11:inStatusLine", "c11:afterStatusLine", "c11:bare100", "c11:bareOther", "c11:otherInFields", "c11:otherFieldLine", "c11:otherComplete", "c11:late100", "c11:second-100", "c11:completed", "c11:despite-method", "c11:looked-again-after-refusal", "c11:redirect-followed", "c11:bytes-behind-the-100", "flow:framing-declared-in-prepare"],
     "rule": "one case = one interim/final server head (100 with 4 reason variants, refusals bare / with fields / with Connection: close) x the prefix length at which the caller stops looking (every length, cumulatively re-presented) "
             "x HTTP/1.0 / 1.1 x request framing, continued to Cleanup on whichever path the flow takes; distinct = distinct (message, variant, version, give-up point)",
     "assumptions": FLOW_ASSUME,
@@ -182,7 +182,7 @@ REDIR_ASSUME = ["requests carry no explicit Host header; the reference grammar i
 PROPS["C13"] = {
     "driver": "c13", "trace_spec": "TraceRedirect", "scripts": "redirect",
     "mc_quick": REDIR_MC_Q, "mc_thorough": REDIR_MC_T,
-    "require_classes": ["hop:second-or-later", "hop:auth-kept", "hop:not-followed", "hop:caller-sets-credentials", "hop:despite-on-redirected", "hop:many-original-headers"],
+    "require_classes": ["hop:second-or-later", "hop:auth-kept", "hop:not-followed", "hop:caller-sets-credentials", "hop:despite-on-redirected", "hop:many-original-headers", "hop:credentials-in-the-uri", "hop:original-with-both-framing-headers"],
     "rule": "one case = one redirect chain of 1..4 hops (model edge-cover scripts; seeded random chains over absolute / scheme-relative / path-absolute / relative / query-only / empty "
             "references with fragments and decoy Location fields; directed leave-and-return, scheme downgrade, port change chains), original request with Authorization, Cookie, Content-Length, "
             "both policies; the head of every hop's request is written and lexed; distinct = distinct scripts / (method, hops, dead end)",
@@ -203,7 +203,7 @@ PROPS["C12"] = {
     "mc_quick": [mc("MCDechunk", "MCDechunk_hostile.cfg", workers=8), mc("MCFlow", "MCFlow_quick.cfg", workers=6),
                  mc("MCFlow", "MCFlow_ReasonCap4.cfg", workers=4, expect_violation="NotPanicked")],
     "mc_thorough": [mc("MCDechunk", "MCDechunk_hostile_thorough.cfg", workers=16, timeout=3400, heap="16g"), mc("MCFlow", "MCFlow_thorough.cfg", workers=16, timeout=3000, heap="16g")],
-    "require_classes": ["h:ok", "h:err", "fault:long-name", "fault:many-fields", "fault:splice", "fault:strayCR", "fault:oversize", "fault:highbit", "fault:odd-location"],
+    "require_classes": ["h:ok", "h:err", "fault:long-name", "fault:many-fields", "fault:splice", "fault:strayCR", "fault:oversize", "fault:highbit", "fault:odd-location", "fault:lf-only", "fault:lf-truncate", "fault:odd-transfer-encoding", "fault:odd-content-length"],
     "rule": "one case = one server byte string x one arrival/buffer schedule x one request configuration: (a) every string over the decoder alphabet {0,1,a,F,;,SP,CR,LF,x} up to length 5 (quick) / 6 "
             "into a chunked body reader, whole and in 1-byte pieces; (b) every token string up to length 3 / 4 over a 17-token head alphabet through the whole flow; (c) the 849 faulty exchanges "
             "TLC enumerates from spec/Faults.tla (delete / duplicate / truncate / oversize / flip / stray CR / stray LF / swap at every segment, splices, 128-200 fields, 64 KiB names, 5 close conditions) "
@@ -216,7 +216,7 @@ PROPS["C01"] = {
     "mc_quick": [mc("MCFlow", "MCFlow_quick.cfg", workers=8), mc("MCDechunk", "MCDechunk_q2.cfg", workers=6), mc("MCSendHead", "MCSendHead.cfg"),
                  mc("MCBodyWriter", "MCBodyWriter_chunked_impl.cfg"), mc("MCBodyReader", "MCBodyReader.cfg")],
     "mc_thorough": [mc("MCFlow", "MCFlow_thorough.cfg", workers=16, timeout=3000, heap="16g"), mc("MCDechunk", "MCDechunk_q1.cfg", workers=8), mc("MCSendHead", "MCSendHead.cfg")],
-    "require_kinds": ["run", "outcome"], "require_classes": ["c01:gave-up-waiting"],
+    "require_kinds": ["run", "outcome"], "require_classes": ["c01:gave-up-waiting", "c01:flow-made-by-a-redirect", "c01:response-with-many-fields", "c01:response-over-64k-in-one-window", "c01:repeated-header-names"],
     "rule": "one case = one request configuration (method, version, framing, Expect, payload size) + one server stream of 1..3 back-to-back responses (optional interim 100, CL / chunked / "
             "close-delimited bodies, 3xx with Location); per case the reference schedule and 45-145 further schedules (single cuts near both ends and random, double cuts, 1-byte arrivals, "
             "send buffers from {one line, one line-1, 1, 6, 7, 11, 64, large}, read buffers from {0,1,2,3,large}, interleaved queries), exchanges continued on the same byte cursor while reusable; "
